@@ -271,6 +271,56 @@ pub fn run(suite: &str, thorough: bool, seed: u64, shard: usize, nshards: usize,
                 em.case(sd, validate_case(&vec![("main".to_owned(), main)]));
             }
         }
+        // C08: exhaustive container shapes over the 17 leaf categories, in every syntactic position
+        "containers" => {
+            let leaves: Vec<String> = CATEGORY_TYPES.iter().map(|(_, t)| (*t).to_owned()).collect();
+            // depth-1 shapes
+            let mut d1: Vec<String> = vec!["List".to_owned(), "Map".to_owned()];
+            for l in &leaves {
+                d1.push(format!("{}[]", l));
+                d1.push(format!("List<{}>", l));
+                for k in ["String", "int", "List"] {
+                    d1.push(format!("Map<{}, {}>", k, l));
+                }
+            }
+            let mut shapes: Vec<String> = leaves.clone();
+            shapes.extend(d1.iter().cloned());
+            let mut d2: Vec<String> = Vec::new();
+            for s1 in &d1 {
+                d2.push(format!("{}[]", s1));
+                d2.push(format!("List<{}>", s1));
+                d2.push(format!("Map<String, {}>", s1));
+                d2.push(format!("Map<{}, String>", s1));
+            }
+            shapes.extend(d2.iter().cloned());
+            if thorough {
+                // depth 3 with restricted keys
+                for s2 in &d2 {
+                    shapes.push(format!("{}[]", s2));
+                    shapes.push(format!("List<{}>", s2));
+                    shapes.push(format!("Map<String, {}>", s2));
+                }
+            }
+            let mut idx = 0usize;
+            for sh in &shapes {
+                for pos in 0..4usize {
+                    idx += 1;
+                    if !mine(idx) {
+                        continue;
+                    }
+                    let item = match pos {
+                        0 => format!("parcelable Main {{\n    {} f;\n}}\n", sh),
+                        1 => format!("interface Main {{\n    {} f();\n}}\n", sh),
+                        2 => format!("interface Main {{\n    void f(int a, in {} b);\n}}\n", sh),
+                        _ => format!("interface Main {{\n    const {} C = 1;\n    void g();\n}}\n", sh),
+                    };
+                    let main = format!("package m;\n{}\n{}", CATEGORY_PRELUDE, item);
+                    let mut files = category_defs();
+                    files.push(("main".to_owned(), main));
+                    em.case(idx as u64, validate_case(&files));
+                }
+            }
+        }
         _ => {
             eprintln!("unknown suite {}", suite);
             std::process::exit(2);
